@@ -207,3 +207,173 @@ func RandomCfg(r *core.Rng, s *Schema) *CfgOpts {
 	}
 	return c
 }
+
+// DecorateSafe attaches only options that the documentation says are valid where they are put,
+// so that the decorated program is still in the supported fragment (C01's quantifier).
+func DecorateSafe(r *core.Rng, s *Schema, d *Doc, p float64) {
+	k := 0
+	uniq := func(prefix string) string { k++; return fmt.Sprintf("%s%d", prefix, k) }
+	fragOn := map[string]string{}
+	for _, f := range d.Frags {
+		fragOn[f.Name] = f.On
+	}
+	matches := func(fieldType, fragType string) bool {
+		if fieldType == fragType {
+			return true
+		}
+		ft, fr := s.Get(fieldType), s.Get(fragType)
+		if ft == nil || fr == nil {
+			return false
+		}
+		for _, i := range ft.Implements {
+			if i == fragType {
+				return true
+			}
+		}
+		if fr.Kind == "UNION" {
+			for _, m := range fr.Members {
+				if m == fieldType {
+					return true
+				}
+			}
+		}
+		return false
+	}
+	keyCount := map[string]int{}
+	var countKeys func(sels []*Sel)
+	countKeys = func(sels []*Sel) {
+		for _, sel := range sels {
+			if sel.Kind == "field" {
+				keyCount[sel.Key()]++
+			}
+			countKeys(sel.Sub)
+		}
+	}
+	var decorateSels func(sels []*Sel)
+	decorateSels = func(sels []*Sel) {
+		for _, sel := range sels {
+			// a field selected several times in one definition must carry the same options on
+			// every occurrence (genqlient keeps the first one's): leave those alone
+			if sel.Kind == "field" && sel.Name != "__typename" && keyCount[sel.Key()] == 1 && r.Chance(p) {
+				var opts []string
+				leaf := s.IsLeaf(sel.Type.Base())
+				td := s.Get(sel.Type.Base())
+				custom := td != nil && td.Kind == "SCALAR"
+				if r.Chance(0.5) {
+					opts = append(opts, fmt.Sprintf("pointer: %v", r.Chance(0.7)))
+				}
+				if r.Chance(0.25) {
+					opts = append(opts, fmt.Sprintf("alias: %q", uniq("Al")))
+				}
+				if r.Chance(0.2) && !custom {
+					opts = append(opts, fmt.Sprintf("typename: %q", uniq("Ty")))
+				} else if leaf && r.Chance(0.15) {
+					opts = append(opts, fmt.Sprintf("bind: %q", []string{"example.com/b.T", "string", "[]example.com/c.U", "*example.com/c.V", "example.com/d/types.T5"}[r.Intn(5)]))
+				}
+				onlyFields := true
+				for _, x := range sel.Sub {
+					if x.Kind != "field" {
+						onlyFields = false
+					}
+				}
+				if !leaf && s.IsAbstract(sel.Type.Base()) && onlyFields && r.Chance(0.4) {
+					opts = append(opts, "struct: true")
+				}
+				if !leaf && len(sel.Sub) == 1 && sel.Sub[0].Kind == "spread" && matches(sel.Type.Base(), fragOn[sel.Sub[0].Name]) && r.Chance(0.6) {
+					opts = append(opts, "flatten: true")
+				}
+				if len(opts) > 0 {
+					sel.Comment = append(sel.Comment, "@genqlient("+strings.Join(opts, ", ")+")")
+				}
+			}
+			decorateSels(sel.Sub)
+		}
+	}
+	var outTargets []string
+	for _, t := range s.Types {
+		if t.Kind == "OBJECT" || t.Kind == "INTERFACE" {
+			for _, f := range t.Fields {
+				outTargets = append(outTargets, t.Name+"."+f.Name)
+			}
+		}
+	}
+	top := func(hasInputVars bool) []string {
+		var lines []string
+		if r.Chance(p) {
+			// an operation-level `pointer: true` also reaches the fields of input objects, where
+			// genqlient (deliberately) rejects a pointer on a non-null field without omitempty
+			v := r.Chance(0.6)
+			if hasInputVars {
+				v = false
+			}
+			lines = append(lines, fmt.Sprintf("@genqlient(pointer: %v)", v))
+		}
+		if len(outTargets) > 0 && r.Chance(p) {
+			lines = append(lines, fmt.Sprintf("@genqlient(for: %q, pointer: %v)", outTargets[r.Intn(len(outTargets))], r.Chance(0.7)))
+		}
+		return lines
+	}
+	for _, op := range d.Ops {
+		hasInput := false
+		for _, v := range op.Vars {
+			if td := s.Get(v.Type.Base()); td != nil && td.Kind == "INPUT" {
+				hasInput = true
+			}
+		}
+		op.Comment = append(op.Comment, top(hasInput)...)
+		if r.Chance(p * 0.5) {
+			op.Comment = append(op.Comment, fmt.Sprintf("@genqlient(typename: %q)", uniq("Resp")))
+		}
+		for _, v := range op.Vars {
+			if r.Chance(p) {
+				var opts []string
+				td := s.Get(v.Type.Base())
+				isInput := td != nil && td.Kind == "INPUT"
+				if r.Chance(0.6) {
+					opts = append(opts, fmt.Sprintf("pointer: %v", r.Chance(0.7)))
+				}
+				if !v.Type.NonNull && r.Chance(0.5) {
+					opts = append(opts, "omitempty: true")
+				}
+				_ = isInput
+				if len(opts) > 0 {
+					v.Comment = append(v.Comment, "@genqlient("+strings.Join(opts, ", ")+")")
+				}
+			}
+		}
+		keyCount = map[string]int{}
+		countKeys(op.Sel)
+		decorateSels(op.Sel)
+	}
+	for _, f := range d.Frags {
+		f.Comment = append(f.Comment, top(false)...)
+		keyCount = map[string]int{}
+		countKeys(f.Sel)
+		decorateSels(f.Sel)
+	}
+}
+
+// RandomCfgSafe: settings within the supported fragment (every custom scalar bound; no
+// global binding of composite types).
+func RandomCfgSafe(r *core.Rng, s *Schema) *CfgOpts {
+	c := RandomCfg(r, s)
+	for k := range c.Bindings {
+		if td := s.Get(k); td != nil && td.Kind != "SCALAR" {
+			delete(c.Bindings, k)
+		}
+	}
+	c.Extensions = r.Chance(0.3)
+	switch r.Intn(6) {
+	case 0:
+		c.ContextType = "-"
+	case 1:
+		c.ContextType = "example.com/cx.MyCtx"
+	}
+	if r.Chance(0.2) {
+		c.ClientGetter = "example.com/cg.GetClient"
+		if c.ContextType == "-" {
+			c.ClientGetter = "example.com/cg.GetClientNoCtx"
+		}
+	}
+	return c
+}
